@@ -134,26 +134,35 @@ def gen_builtin(rng, nmax):
             for i in range(a, min(n, a + L)):
                 X[i][j] += lv
     return {"n": n, "p": p, "m": m, "M": rng.choice([m + 2, 8, 100]), "X": X, "cfam": rng.choice(["sparse", "dense", "combined", "intermediate"]),
-            "pfam": rng.choice(["sparse", "dense", "combined", "intermediate"]), "cs": rng.choice([0.2, 0.5, 1.0]), "ps": rng.choice([0.2, 0.5, 1.0])}
+            "pfam": rng.choice(["sparse", "dense", "combined", "intermediate"]), "cs": rng.choice([0.2, 0.5, 1.0]), "ps": rng.choice([0.2, 0.5, 1.0]),
+            # collective saving with one (L2) or two (Gaussian, fixed baseline) parameters per variable
+            "saving": rng.choice(["l2", "l2", "gvar"])}
 
 
 def impl_builtin(case):
     from skchange.anomaly_detectors import MVCAPA
     from skchange.anomaly_detectors.mvcapa import capa_penalty_factory
-    from skchange.anomaly_scores import L2Saving
+    from skchange.anomaly_scores import L2Saving, to_saving
+    from skchange.costs import GaussianVarCost
 
     X = np.array(case["X"])
     n, p = case["n"], case["p"]
+    gv = case.get("saving") == "gvar"
     try:
-        det = MVCAPA(collective_penalty=case["cfam"], collective_penalty_scale=case["cs"], point_penalty=case["pfam"],
+        det = MVCAPA(GaussianVarCost(param=(0.0, 1.0)) if gv else None,
+                     collective_penalty=case["cfam"], collective_penalty_scale=case["cs"], point_penalty=case["pfam"],
                      point_penalty_scale=case["ps"], min_segment_length=case["m"], max_segment_length=max(case["M"], case["m"])).fit(X)
         y = det.predict(X)
-        sv = L2Saving().fit(X)
-        sa, sb = capa_penalty_factory("sparse")(n, p, 1, scale=case["cs"])
+        sv = to_saving(GaussianVarCost(param=(0.0, 1.0))).fit(X) if gv else L2Saving().fit(X)
+        pv = L2Saving().fit(X)  # the point saving stays the default
+        k = 2 if gv else 1
+        # the sparse penalty from its documented formula (2 log n once, 2 log(k p) per component, times the scale), not
+        # from the library's own function
+        sa, sb = 2 * case["cs"] * np.log(n), [2 * case["cs"] * np.log(k * p)] * p
         pa, pb = capa_penalty_factory(case["pfam"])(n, p, 1, scale=case["ps"])
         an = [(int(i.left), int(i.right)) for i in y["ilocs"]]
         return {"outcome": "ok", "anoms": an, "cols": [[int(c) for c in cs] for cs in y["icolumns"]],
-                "sav": [[float(v) for v in sv.evaluate(np.array([[a, b]]))[0]] for a, b in an],
+                "sav": [[float(v) for v in (pv if b - a == 1 else sv).evaluate(np.array([[a, b]]))[0]] for a, b in an],
                 "sparse": [float(sa), [float(v) for v in sb]], "point": [float(pa), [float(v) for v in pb]]}
     except Exception as ex:
         return {"outcome": "other:" + type(ex).__name__, "msg": str(ex)[:200]}
